@@ -189,12 +189,14 @@ func newWalChannels() *walChannels {
 	entry := make(chan *model.Entry)
 	entries := make(chan []model.Entry)
 	count := make(chan int)
+	oops := make(chan error)
 	done := make(chan struct{})
 	return &walChannels{
 		tokens:  token,
 		entry:   entry,
 		entries: entries,
 		count:   count,
+		oops:    oops,
 		done:    done,
 	}
 }
@@ -264,11 +266,11 @@ func (w *WAL) read(ctx context.Context, token string, channels *walChannels) {
 	defer w.releaseConnection() // concurrency control
 	r, err := w.walStore.Get(ctx, token)
 	w.l.Debug("Read token", zap.String("token", token))
-	defer r.Close()
 	if err != nil {
 		channels.oops <- err
 		return
 	}
+	defer r.Close()
 	b := make([]byte, 1024)
 	for {
 		l, e := r.Read(b)
